@@ -61,6 +61,43 @@ def lit_lemmas():
     return "pub proof fn lemma_lits()\n    ensures\n" + "\n".join(ens) + "\n{\n" + "\n".join(body) + "\n}\n"
 
 
+
+# every function that takes the ghost World (E4); a call of one of them inside a function under contract gets `Tracked(w)`
+GHOSTED = {"copy_file", "delete_file", "backup_service_config_file", "copy_service_config_file", "linux::setup_service",
+           "linux::copy_files", "linux::backup_files", "linux::delete_files", "misc_helpers::try_create_folder",
+           "misc_helpers::execute_command", "unmask_service", "reload_systemd_daemon", "enable_service", "disable_service",
+           "delete_service_config_file", "linux_service::install_or_update_service", "linux_service::stop_service",
+           "linux_service::uninstall_service", "linux_service::start_service", "service::stop_service", "service::install_service",
+           "service::start_service", "service::stop_and_delete_service", "stop_service", "setup_service", "copy_proxy_agent",
+           "backup_proxy_agent", "restore_proxy_agent", "check_backup_exists", "uninstall_service", "delete_package",
+           "delete_folder", "delete_backup_folder"}
+
+
+def GC(sf, fnpath, lo=None, hi=None):
+    """E4 call sites, computed from the index: every path call of a GHOSTED callee inside the function (or slice range)."""
+    it = sf.item(fnpath, "fn")
+    if lo is None:
+        lo, hi = it["body"][0] + 1, it["body"][1] - 1
+    import re
+    dropped = []   # statements under cfg(windows): removed by E2, calls inside them do not exist on the linux target
+    for b in it["blocks"]:
+        for st in b["stmts"]:
+            if re.match(r"\s*#\[cfg\(\s*windows\s*\)\]", sf.s(st[0], st[1])):
+                dropped.append(st)
+    out = []
+    for c in sorted(it["calls"], key=lambda c: c["span"][0]):
+        if c["kind"] != "path" or not (lo <= c["span"][0] and c["span"][1] <= hi):
+            continue
+        if any(d[0] <= c["span"][0] and c["span"][1] <= d[1] for d in dropped):
+            continue
+        if c["callee"].replace(" ", "") not in GHOSTED:
+            continue
+        anchor = sf.s(c["callee_span"][0], c["callee_span"][1]) + "("
+        before = sf.s(lo, c["callee_span"][0])
+        out.append((anchor, before.count(anchor), WA))
+    return out
+
+
 def call_e9(sf, fnpath, callee, nth, params, ret, contract, name, body):
     """E9 on the nth call of `callee` inside fn: anchor and argument texts are taken from the index (verbatim source)"""
     from vxlib import Undecided
@@ -127,24 +164,21 @@ def build(u):
         requires %s,
         ensures cmd_post(*old(w), *final(w), "systemctl"@, seq!["%%s"@, n_exe()], r is Ok),  // @C17.%%s.issues_systemctl_%%s
 """ % NAME
-                EXEC = ("misc_helpers::execute_command(", None, WA)
                 PB = BU + "broadcast use lemma_strs1, lemma_strs2;\nproof { lemma_lits(); lemma_names(); lemma_verbs(); }"
-                def vec_hint(verb):
-                    return []
                 for fn, verb in (("stop_service", "stop"), ("start_service", "start"), ("unmask_service", "unmask"),
                                  ("disable_service", "disable"), ("enable_service", "enable")):
-                    u.take_fn(s_ls, fn, ghost=W, ghost_calls=[EXEC], pre_body=PB, contract=CMD1 % (verb, fn, verb))
-                u.take_fn(s_ls, "reload_systemd_daemon", ghost=W, ghost_calls=[EXEC], pre_body=PB, contract="""
+                    u.take_fn(s_ls, fn, ghost=W, ghost_calls=GC(s_ls, fn), pre_body=PB, contract=CMD1 % (verb, fn, verb))
+                u.take_fn(s_ls, "reload_systemd_daemon", ghost=W, ghost_calls=GC(s_ls, "reload_systemd_daemon"), pre_body=PB, contract="""
         ensures cmd_post(*old(w), *final(w), "systemctl"@, seq!["daemon-reload"@], r is Ok),
 """)
                 u.take_fn(s_ls, "install_or_update_service", ghost=W, pre_body=PB,
-                          ghost_calls=[("unmask_service(", None, WA), ("reload_systemd_daemon(", None, WA), ("enable_service(", None, WA)],
+                          ghost_calls=GC(s_ls, "install_or_update_service"),
                           contract="""
         requires %s,
         ensures enable_post(*old(w), *final(w), r is Ok),
 """ % NAME)
                 u.take_fn(s_ls, "delete_service_config_file", ghost=W, pre_body=PB,
-                          ghost_calls=[("reload_systemd_daemon(", None, WA)],
+                          ghost_calls=GC(s_ls, "delete_service_config_file"),
                           e9=[("""format!("{}.service", service_name)""", None, "service_name: &str", "service_name", "String",
                                """        ensures r@ == service_name@ + ".service"@,""", dict(name="vx_e9_format_unit_name2")),
                               call_e9(s_ls, "delete_service_config_file", "fs::remove_file", 0, "a: &PathBuf", "std::io::Result<()>", """
@@ -154,23 +188,23 @@ def build(u):
         ensures remove_unit_post(*old(w), *final(w), r is Ok),
 """ % NAME)
                 u.take_fn(s_ls, "uninstall_service", ghost=W, pre_body=PB,
-                          ghost_calls=[("disable_service(", None, WA), ("delete_service_config_file(", None, WA)],
+                          ghost_calls=GC(s_ls, "uninstall_service"),
                           contract="""
         requires %s,
         ensures remove_unit_post(*old(w), *final(w), r is Ok),
 """ % NAME)
                 u.flush_e9()
-            u.take_fn(s_sv, "install_service", ghost=W, ghost_calls=[("linux_service::install_or_update_service(", None, WA)], contract="""
+            u.take_fn(s_sv, "install_service", ghost=W, ghost_calls=GC(s_sv, "install_service"), contract="""
         requires %s,
         ensures enable_post(*old(w), *final(w), r is Ok),
 """ % NAME)
             u.take_fn(s_sv, "stop_and_delete_service", ghost=W, pre_body="proof { lemma_names(); lemma_verbs(); }",
-                      ghost_calls=[("linux_service::stop_service(", None, WA), ("linux_service::uninstall_service(", None, WA)], contract="""
+                      ghost_calls=GC(s_sv, "stop_and_delete_service"), contract="""
         requires %s,
         ensures stop_and_delete_post(*old(w), *final(w), r is Ok),
 """ % NAME)
-            u.take_fn(s_sv, "start_service", ghost=W, ghost_calls=[("linux_service::start_service(", None, WA)], contract=CMD1 % ("start", "service.start_service", "start"))
-            u.take_fn(s_sv, "stop_service", ghost=W, ghost_calls=[("linux_service::stop_service(", None, WA)], contract=CMD1 % ("stop", "service.stop_service", "stop"))
+            u.take_fn(s_sv, "start_service", ghost=W, ghost_calls=GC(s_sv, "start_service"), contract=CMD1 % ("start", "service.start_service", "start"))
+            u.take_fn(s_sv, "stop_service", ghost=W, ghost_calls=GC(s_sv, "stop_service"), contract=CMD1 % ("stop", "service.stop_service", "stop"))
 
     u.raw("""
 #[verifier::external_body]
@@ -219,7 +253,7 @@ pub broadcast group group_fmt { axiom_fmt_pathbuf, axiom_fmt_path, axiom_fmt_ioe
         requires asref_pv(a) != asref_pv(b),
         ensures copy_post(*old(w), *final(w), asref_pv(a), asref_pv(b), r is Ok),"""
         u.take_fn(lx, "copy_file", ghost=W, ret="", pre_body=BU,
-                  ghost_calls=[("misc_helpers::try_create_folder(", None, WA)],
+                  ghost_calls=GC(lx, "copy_file"),
                   e9=[call_e9(lx, "copy_file", "fs::copy", 0, "a: &PathBuf, b: &PathBuf", "std::io::Result<u64>", COPY_C, "vx_e9_fs_copy_file", "fs::copy(a, b)")],
                   contract="""
         requires pbv(src_file) != pbv(dst_file),
@@ -251,9 +285,9 @@ pub broadcast group group_fmt { axiom_fmt_pathbuf, axiom_fmt_path, axiom_fmt_ioe
                        "src_config_file_path, dst_config_file_path, " + WA, "Result<u64>", COPY_C,
                        dict(name="vx_e9_fs_copy_unit", body="fs::copy(a, b).map_err(Into::into)"))],
                   contract=UNIT_C)
-        u.take_fn(lx, "setup_service", ghost=W, ghost_calls=[("copy_service_config_file(", None, WA)], contract=UNIT_C)
+        u.take_fn(lx, "setup_service", ghost=W, ghost_calls=GC(lx, "setup_service"), contract=UNIT_C)
         u.take_fn(lx, "backup_files", ghost=W, ret="", pre_body=BU + "proof { lemma_lits(); lemma_layout(); }",
-                  ghost_calls=[("copy_file(", 0, WA), ("copy_file(", 1, WA), ("copy_file(", 2, WA), ("backup_service_config_file(", None, WA)],
+                  ghost_calls=GC(lx, "backup_files"),
                   contract="""
         requires wf_layout(),
         ensures
@@ -263,7 +297,7 @@ pub broadcast group group_fmt { axiom_fmt_pathbuf, axiom_fmt_path, axiom_fmt_ioe
             neutral_ext(old(w).tr, final(w).tr),  // @C17.backup_files.service_and_system_files_untouched
 """)
         u.take_fn(lx, "copy_files", ghost=W, ret="", pre_body=BU + "proof { lemma_lits(); lemma_layout(); lemma_src_under(pbv(src_folder)); }",
-                  ghost_calls=[("copy_file(", 0, WA), ("copy_file(", 1, WA), ("copy_file(", 2, WA)],
+                  ghost_calls=GC(lx, "copy_files"),
                   contract="""
         requires wf_layout(), is_under(exe_dir(), pbv(src_folder)),
         ensures
@@ -273,7 +307,7 @@ pub broadcast group group_fmt { axiom_fmt_pathbuf, axiom_fmt_path, axiom_fmt_ioe
             quiet_ext(old(w).tr, final(w).tr),  // @C17.copy_files.no_stop_or_start
 """)
         u.take_fn(lx, "delete_files", ghost=W, ret="", pre_body=BU + "proof { lemma_lits(); lemma_names(); }",
-                  ghost_calls=[("delete_file(", 0, WA), ("delete_file(", 1, WA), ("delete_file(", 2, WA)],
+                  ghost_calls=GC(lx, "delete_files"),
                   contract="""
         ensures
             old(w).fault ==> final(w).fault,
@@ -293,7 +327,7 @@ pub broadcast group group_fmt { axiom_fmt_pathbuf, axiom_fmt_path, axiom_fmt_ioe
     u.take(mn, "SERVICE_NAME", "const")
     PBM = BU + "proof { lemma_lits(); lemma_names(); lemma_verbs(); lemma_layout(); }"
     PBN = BU + "proof { lemma_lits(); lemma_names(); lemma_verbs(); }"
-    u.take_fn(mn, "copy_proxy_agent", ghost=W, pre_body=PBM, ghost_calls=[("linux::copy_files(", None, WA)], contract="""
+    u.take_fn(mn, "copy_proxy_agent", ghost=W, pre_body=PBM, ghost_calls=GC(mn, "copy_proxy_agent"), contract="""
         requires wf_layout(),
         ensures
             pbv(r) == dir_sbin(),
@@ -302,7 +336,7 @@ pub broadcast group group_fmt { axiom_fmt_pathbuf, axiom_fmt_path, axiom_fmt_ioe
             forall|p: PathV| !is_sys(p) ==> #[trigger] at(final(w).fs, p) == at(old(w).fs, p),  // @C17.copy_proxy_agent.only_system_locations_change
             quiet_ext(old(w).tr, final(w).tr),
 """)
-    u.take_fn(mn, "backup_proxy_agent", ghost=W, ret="", pre_body=PBM, ghost_calls=[("linux::backup_files(", None, WA)], contract="""
+    u.take_fn(mn, "backup_proxy_agent", ghost=W, ret="", pre_body=PBM, ghost_calls=GC(mn, "backup_proxy_agent"), contract="""
         requires wf_layout(),
         ensures
             old(w).fault ==> final(w).fault,
@@ -310,7 +344,7 @@ pub broadcast group group_fmt { axiom_fmt_pathbuf, axiom_fmt_path, axiom_fmt_ioe
             forall|p: PathV| !is_bak_slot(p) ==> #[trigger] at(final(w).fs, p) == at(old(w).fs, p),  // @C17.backup_proxy_agent.nothing_else_changes
             neutral_ext(old(w).tr, final(w).tr),
 """)
-    u.take_fn(mn, "restore_proxy_agent", ghost=W, pre_body=PBM, ghost_calls=[("linux::copy_files(", None, WA)], contract="""
+    u.take_fn(mn, "restore_proxy_agent", ghost=W, pre_body=PBM, ghost_calls=GC(mn, "restore_proxy_agent"), contract="""
         requires wf_layout(),
         ensures
             pbv(r) == dir_sbin(),
@@ -319,14 +353,14 @@ pub broadcast group group_fmt { axiom_fmt_pathbuf, axiom_fmt_path, axiom_fmt_ioe
             forall|p: PathV| !is_sys(p) ==> #[trigger] at(final(w).fs, p) == at(old(w).fs, p),  // @C17.restore_proxy_agent.only_system_locations_change
             quiet_ext(old(w).tr, final(w).tr),
 """)
-    u.take_fn(mn, "stop_service", ghost=W, ret="", pre_body=PBN, ghost_calls=[("service::stop_service(", None, WA)], contract="""
+    u.take_fn(mn, "stop_service", ghost=W, ret="", pre_body=PBN, ghost_calls=GC(mn, "stop_service"), contract="""
         ensures
             final(w).fs == old(w).fs,
             old(w).fault ==> final(w).fault,
             !final(w).fault ==> final(w).tr == old(w).tr.push(systemctl("stop"@)),  // @C17.stop_service.stop_issued
 """)
     u.take_fn(mn, "setup_service", ghost=W, ret="", pre_body=PBN,
-              ghost_calls=[("linux::setup_service(", None, WA), ("service::install_service(", None, WA), ("service::start_service(", None, WA)], contract="""
+              ghost_calls=GC(mn, "setup_service"), contract="""
         requires pbv(_service_config_folder_path).push(n_unit()) != sys_unit(),
         ensures setup_service_post(*old(w), *final(w), pbv(_service_config_folder_path).push(n_unit())),
 """)
@@ -336,10 +370,10 @@ pub broadcast group group_fmt { axiom_fmt_pathbuf, axiom_fmt_path, axiom_fmt_ioe
               contract="""
         ensures *final(w) == *old(w), r == old(w).fs.dom().contains(bak_exe()),  // @C17.check_backup_exists.looks_at_the_backed_up_executable
 """)
-    u.take_fn(mn, "uninstall_service", ghost=W, pre_body=PBN, ghost_calls=[("service::stop_and_delete_service(", None, WA)], contract="""
+    u.take_fn(mn, "uninstall_service", ghost=W, pre_body=PBN, ghost_calls=GC(mn, "uninstall_service"), contract="""
         ensures stop_and_delete_post(*old(w), *final(w), true),
 """)
-    u.take_fn(mn, "delete_package", ghost=W, ret="", pre_body=PBN, ghost_calls=[("linux::delete_files(", None, WA)], contract="""
+    u.take_fn(mn, "delete_package", ghost=W, ret="", pre_body=PBN, ghost_calls=GC(mn, "delete_package"), contract="""
         ensures
             old(w).fault ==> final(w).fault,
             !final(w).fault ==> final(w).fs =~= rm(rm(rm(old(w).fs, sys_exe()), sys_config()), sys_ebpf()),  // @C17.delete_package.removes_the_installed_files
@@ -352,7 +386,7 @@ pub broadcast group group_fmt { axiom_fmt_pathbuf, axiom_fmt_path, axiom_fmt_ioe
               contract="""
         ensures delete_folder_post(*old(w), *final(w), pbv(folder_to_be_delete)),
 """)
-    u.take_fn(mn, "delete_backup_folder", ghost=W, ret="", pre_body=PBN, ghost_calls=[("delete_folder(", None, WA)], contract="""
+    u.take_fn(mn, "delete_backup_folder", ghost=W, ret="", pre_body=PBN, ghost_calls=GC(mn, "delete_backup_folder"), contract="""
         ensures delete_folder_post(*old(w), *final(w), backup_dir()),  // @C17.delete_backup_folder.removes_the_backup_folder
 """)
     u.flush_e9()
@@ -384,10 +418,10 @@ pub broadcast group group_fmt { axiom_fmt_pathbuf, axiom_fmt_path, axiom_fmt_ioe
             c["args"] = []
     PBA = BU + "broadcast use lemma_push_drop_last;\nproof { lemma_lits(); lemma_names(); lemma_verbs(); lemma_layout(); }\n"
 
-    def arm(k, name, params, contract, gc):
+    def arm(k, name, params, contract):
         a = arms[k]
         u.slice_fn(mn, "main", name, a["body"][0], a["body"][1], (params + ", " if params else "") + W, contract=contract, is_async=True,
-                   pre_body=PBA, ghost_calls=gc, what="(arm %s of match cli.command)" % mn.s(*a["pat"]))
+                   pre_body=PBA, ghost_calls=GC(mn, "main", a["body"][0], a["body"][1]), what="(arm %s of match cli.command)" % mn.s(*a["pat"]))
 
     arm("Backup", "vx_arm_backup", "", """
         requires wf_layout(),
@@ -397,7 +431,7 @@ pub broadcast group group_fmt { axiom_fmt_pathbuf, axiom_fmt_path, axiom_fmt_ioe
             forall|p: PathV| !is_bak_slot(p) ==> #[trigger] at(final(w).fs, p) == at(old(w).fs, p),  // @C17.backup.nothing_else_changes
             neutral_ext(old(w).tr, final(w).tr),  // @C17.backup.service_and_system_files_untouched
             step_ok(Cmd::Backup, *old(w), *final(w)),  // @C17.backup.refines_command_step
-""", [("backup_proxy_agent(", None, WA)])
+""")
     arm("Restore", "vx_arm_restore", "delete_backup: bool", """
         requires wf_layout(),
         ensures
@@ -408,7 +442,7 @@ pub broadcast group group_fmt { axiom_fmt_pathbuf, axiom_fmt_path, axiom_fmt_ioe
             forall|p: PathV| !is_sys(p) && !(delete_backup && in_backup(p)) ==> #[trigger] at(final(w).fs, p) == at(old(w).fs, p),  // @C17.restore.changes_only_system_locations_and_backup
             !final(w).fault && old(w).fs.dom().contains(bak_exe()) ==> restore_trace(old(w).tr, final(w).tr, delete_backup),  // @C17.restore.stopped_before_first_write_started_after_last
             step_ok(Cmd::Restore { delete_backup }, *old(w), *final(w)),  // @C17.restore.refines_command_step
-""", [("check_backup_exists(", None, WA), ("stop_service(", None, WA), ("restore_proxy_agent(", None, WA), ("setup_service(", None, WA), ("delete_backup_folder(", None, WA)])
+""")
     arm("Uninstall", "vx_arm_uninstall", "uninstall_mode: args::UninstallMode", """
         requires wf_layout(),
         ensures
@@ -417,7 +451,7 @@ pub broadcast group group_fmt { axiom_fmt_pathbuf, axiom_fmt_path, axiom_fmt_ioe
             forall|p: PathV| !is_sys(p) ==> #[trigger] at(final(w).fs, p) == at(old(w).fs, p),  // @C17.uninstall.only_system_locations_change
             !final(w).fault ==> quiet_ext(old(w).tr.push(systemctl("stop"@)), final(w).tr),  // @C17.uninstall.stopped_before_removal
             step_ok(Cmd::Uninstall { package: uninstall_mode == args::UninstallMode::Package }, *old(w), *final(w)),  // @C17.uninstall.refines_command_step
-""", [("uninstall_service(", None, WA), ("delete_package(", None, WA)])
+""")
     arm("Purge", "vx_arm_purge", "", """
         requires wf_layout(),
         ensures
@@ -426,7 +460,7 @@ pub broadcast group group_fmt { axiom_fmt_pathbuf, axiom_fmt_path, axiom_fmt_ioe
             forall|p: PathV| !in_backup(p) ==> #[trigger] at(final(w).fs, p) == at(old(w).fs, p),  // @C17.purge.removes_only_the_backup
             final(w).tr == old(w).tr.push(Ev::RemoveTree(backup_dir())),  // @C17.purge.service_and_system_files_untouched
             step_ok(Cmd::Purge, *old(w), *final(w)),  // @C17.purge.refines_command_step
-""", [("delete_backup_folder(", None, WA)])
+""")
     arm("Install", "vx_arm_install", "", """
         requires wf_layout(),
         ensures
@@ -435,4 +469,4 @@ pub broadcast group group_fmt { axiom_fmt_pathbuf, axiom_fmt_path, axiom_fmt_ioe
             forall|p: PathV| !is_sys(p) ==> #[trigger] at(final(w).fs, p) == at(old(w).fs, p),  // @C17.install.only_system_locations_change
             !final(w).fault ==> stop_work_start(old(w).tr, final(w).tr),  // @C17.install.stopped_before_first_write_started_after_last
             step_ok(Cmd::Install, *old(w), *final(w)),  // @C17.install.refines_command_step
-""", [("stop_service(", None, WA), ("copy_proxy_agent(", None, WA), ("setup_service(", None, WA)])
+""")
